@@ -785,6 +785,9 @@ impl InstrFormat for StdHooks06 {
                 instr.opcode, instr.args_blob.len(),
             )));
         }
+        if instr.opcode == 0xFFFF {
+            return Err(emitter.as_sized().emit(error!("opcode 65535 is reserved for the end-of-script marker")));
+        }
         f.write_i32(instr.time)?;
         f.write_u16(instr.opcode)?;
         f.write_u16(12)?;  // this version writes argsize rather than instr size
@@ -827,6 +830,9 @@ impl InstrFormat for StdHooks10 {
     }
 
     fn write_instr(&self, f: &mut BinWriter, emitter: &dyn Emitter, instr: &RawInstr) -> WriteResult {
+        if instr.opcode == 0xFFFF {
+            return Err(emitter.as_sized().emit(error!("opcode 65535 is reserved for the end-of-script marker")));
+        }
         f.write_i32(instr.time)?;
         f.write_u16(instr.opcode)?;
         f.write_u16(llir::fit_instr_field(emitter, "size", self.instr_size(instr))?)?;
